@@ -13,8 +13,8 @@ add("C03", "bounded-exhaustive token-sequence / edit / prefix / character-string
     "trusted: reference lexer and CFG transcription (DESIGN.md appendices A/B), hook H1 read accessor; bounds: sequence length, edit distance, atom alphabets",
     "DESIGN.md section 4, C03")
 add("C20", "exhaustive enumeration of error points (C03 spaces) with the parser's own expectation vector recorded by a hook as oracle",
-    "For every syntax diagnostic produced on every case of the C03 spaces (including several recovered errors per parse) the set of token names in the message is compared with the expectation vector the generated parser handed to the formatter. One recorded known finding (second-to-last entry dropped); every other discrepancy is a violation.",
-    "trusted: hook H2 (records the vector before formatting), closed lexicon for token names in messages",
+    "For every syntax diagnostic produced by the parse-error formatter on every case of the C03 spaces (including several recovered errors per parse) the set of token names in the message is compared with the expectation vector the generated parser handed to the formatter. One recorded known finding (second-to-last entry dropped); every other discrepancy is a violation.",
+    "trusted: hook H2 (records the vector and the source span of the parse error before formatting; vectors are paired with diagnostics by span, never by wording), closed lexicon for token names in messages",
     "DESIGN.md section 4, C20")
 
 add("C02", "bounded-exhaustive document x layout exploration of the real parser against a generating document model",
